@@ -151,7 +151,8 @@ Proof.
     - cbn. split; reflexivity.
     - reflexivity.
     - exact Hd.
-    - intros r Hr. apply quiet_closer; [right; right; reflexivity|lia].
+    - intros r a Hr. apply quiet_closer; [right; right; reflexivity|lia].
+    - intros _ a. apply quiet_closer; [right; right; reflexivity|lia].
     - unfold mkafter. apply cont_quiet; [exact Hrk|].
       intros r Hr. apply quiet_closer; [right; right; reflexivity|exact Hr]. }
   unfold D_COMMA in *. rewrite Hc. reflexivity.
